@@ -1,7 +1,139 @@
-(* C19 - conformer and SMILES files (work in progress: statements are added as their proofs land). *)
-From Coq Require Import QArith.
-From E3FP Require Import Base.Prelude Model.Files.
+(* C19 - conformer (SD) and SMILES files round-trip: the part e3fp itself computes.
+   Statements only; proofs are in Proofs/Files.v.  Model: Model/Files.v (M8).
+
+   The SD codec is RDKit's: `G` (what identifies the molecule), `C` (one coordinate block) and `rt4 : C -> C` (what a block
+   becomes through SDWriter + ForwardSDMolSupplier) are universally quantified; properties travel as strings. *)
+From Coq Require Import QArith Qabs Sorting.Permutation.
+From E3FP Require Import Base.Prelude Model.Files Proofs.Files.
 Open Scope Z_scope.
 
-Example ex_fmt4_half_even : fmt4 (1 # 32) = 312 /\ fmt4 (3 # 32) = 938 /\ fmt4 (-(1 # 100000)) = 0.
+(* ---- SMILES tables ------------------------------------------------------------------------------------------------- *)
+(* names and SMILES non-empty and free of white space, names distinct: dict_to_smiles then smiles_to_dict gives the same
+   entries, listed by name ... *)
+Theorem smiles_table_rt : forall t, Forall good_entry t -> NoDup (map fst t) ->
+  smiles_to_dict (dict_to_smiles t) false false = Ok (esort t) /\ Permutation (esort t) t.
+Proof. exact smiles_table_rt. Qed.
+Print Assumptions smiles_table_rt.
+
+(* ... that is, the same finite map *)
+Theorem smiles_table_rt_map : forall t, Forall good_entry t -> NoDup (map fst t) ->
+  exists d, smiles_to_dict (dict_to_smiles t) false false = Ok d /\ forall n, dget n d = dget n t.
+Proof. exact smiles_table_rt_map. Qed.
+Print Assumptions smiles_table_rt_map.
+
+(* iter_to_smiles keeps the caller's order *)
+Theorem smiles_table_rt_iter : forall t, Forall good_entry t -> NoDup (map fst t) ->
+  smiles_to_dict (iter_to_smiles t) false false = Ok t.
+Proof. exact smiles_table_rt_iter. Qed.
+Print Assumptions smiles_table_rt_iter.
+
+(* what duplicates do: without `unique`, the last line written under a name is the one read *)
+Theorem smiles_dup_last_wins : forall t, Forall good_entry t ->
+  exists d, smiles_to_dict (iter_to_smiles t) false false = Ok d /\ forall n, dget n d = dget n (rev t).
+Proof. exact smiles_dup_last_wins. Qed.
+Print Assumptions smiles_dup_last_wins.
+
+(* ---- energy codec -------------------------------------------------------------------------------------------------- *)
+Theorem energy_codec_idempotent : forall q, parse4 (fmt4 (parse4 (fmt4 q))) = parse4 (fmt4 q).
+Proof. exact energy_codec_idempotent. Qed.
+Print Assumptions energy_codec_idempotent.
+
+Theorem energy_codec_identity_on_4_decimals : forall n, fmt4 (parse4 n) = n.
+Proof. exact fmt4_parse4. Qed.
+Print Assumptions energy_codec_identity_on_4_decimals.
+
+(* formatting moves an energy by at most half a unit of the fourth decimal *)
+Theorem energy_codec_nearest : forall q, (Qabs (q * 10000 - inject_Z (fmt4 q)) <= 1 # 2)%Q.
+Proof. exact fmt4_near. Qed.
+Print Assumptions energy_codec_nearest.
+
+(* ---- SD files ------------------------------------------------------------------------------------------------------ *)
+(* number and order: the molecule read back holds the first `write limit` conformers of the molecule, cut to the first `read
+   limit`, in order, renumbered 0..; it is the same molecule; the written molecule keeps its conformers *)
+Theorem sdf_count_order : forall (G C : Type) (rt4 : C -> C) m wl rl fb m' recs r,
+  mol_to_sdf G C m wl = Ok (m', recs) -> mol_from_sdf G C rt4 recs rl fb = Ok r ->
+  map (c_xyz C) (m_confs G C r) =
+    map rt4 (map (c_xyz C) (read_take rl (firstn (room wl 0 (length (m_confs G C m))) (m_confs G C m)))) /\
+  map (c_id C) (m_confs G C r) = map Z.of_nat (seq 0 (length (m_confs G C r))) /\
+  m_graph G C r = m_graph G C m /\
+  m_confs G C m' = m_confs G C m /\ m_graph G C m' = m_graph G C m.
+Proof. exact sdf_count_order. Qed.
+Print Assumptions sdf_count_order.
+
+(* the count is the minimum of the number of conformers and the two limits (None and -1 mean "all") *)
+Theorem sdf_count : forall (G C : Type) (rt4 : C -> C) m wl rl fb m' recs r,
+  mol_to_sdf G C m wl = Ok (m', recs) -> mol_from_sdf G C rt4 recs rl fb = Ok r ->
+  length (m_confs G C r) =
+    let n := length (m_confs G C m) in
+    let w := if limit_active wl then Nat.min n (Z.to_nat (limit_val wl)) else n in
+    match rl with None => w | Some k => if k <? 0 then w else Nat.min (Z.to_nat k) w end.
+Proof. exact sdf_count. Qed.
+Print Assumptions sdf_count.
+
+(* energies: with one energy per conformer, the molecule read back carries the formatted energies of exactly the conformers
+   it received, in order, and no stray Energy property *)
+Theorem sdf_energies : forall (G C : Type) (rt4 : C -> C) m wl rl fb m' recs r l,
+  get_conformer_energies (m_props G C m) = Ok (Some l) -> (length (m_confs G C m) <= length l)%nat ->
+  mol_to_sdf G C m wl = Ok (m', recs) -> mol_from_sdf G C rt4 recs rl fb = Ok r ->
+  pget K_CE (m_props G C r) = Some (PEn (map canon (firstn (length (m_confs G C r)) l))) /\
+  pget K_E (m_props G C r) = None.
+Proof. exact sdf_energies. Qed.
+Print Assumptions sdf_energies.
+
+(* the in-memory molecule after writing: unchanged when it has no Energy property of its own and its energies, if any, are
+   spelled the way "{:.4f}" spells them *)
+Theorem write_restores_props : forall (G C : Type) m wl m' recs,
+  mol_to_sdf G C m wl = Ok (m', recs) -> pget K_E (m_props G C m) = None ->
+  (pget K_CE (m_props G C m) = None \/ exists ns, pget K_CE (m_props G C m) = Some (PEn (map Canon ns))) ->
+  (forall k, pget k (m_props G C m') = pget k (m_props G C m)) /\ m_confs G C m' = m_confs G C m /\ m_graph G C m' = m_graph G C m.
+Proof. exact write_restores_props. Qed.
+Print Assumptions write_restores_props.
+
+(* ... and what exactly changes otherwise: Energy is gone, _ConfEnergies is re-spelled with four decimals, nothing else moves *)
+Theorem write_props_general : forall (G C : Type) m wl m' recs es,
+  get_conformer_energies (m_props G C m) = Ok es -> mol_to_sdf G C m wl = Ok (m', recs) ->
+  forall k, pget k (m_props G C m') =
+    if String.eqb k K_E then None
+    else if String.eqb k K_CE then option_map (fun l => PEn (join_energies l)) es
+    else pget k (m_props G C m).
+Proof. exact write_props_general. Qed.
+Print Assumptions write_props_general.
+
+(* the Energy-carrying molecule is outside the property's stated domain: a note, not an alarm *)
+Theorem write_restores_props_refuted :
+  exists (m m' : mol unit unit) recs,
+    mol_to_sdf unit unit m None = Ok (m', recs) /\ pget K_E (m_props unit unit m) <> pget K_E (m_props unit unit m').
+Proof. exact write_restores_props_refuted. Qed.
+Print Assumptions write_restores_props_refuted.
+
+(* ---- non-vacuity --------------------------------------------------------------------------------------------------- *)
+(* "b_2" -> "C[C@H](N)O", "a1" -> "CCO" *)
+Definition ex_table : list (text * text) :=
+  [([98; 95; 50], [67; 91; 67; 64; 72; 93; 40; 78; 41; 79]); ([97; 49], [67; 67; 79])].
+
+Example ex_table_good : Forall good_entry ex_table /\ NoDup (map fst ex_table).
+Proof.
+  split.
+  - repeat constructor; simpl; discriminate.
+  - repeat constructor; simpl; intuition discriminate.
+Qed.
+
+Example ex_table_file :
+  dict_to_smiles ex_table = [67; 67; 79; 32; 97; 49; 10; 67; 91; 67; 64; 72; 93; 40; 78; 41; 79; 32; 98; 95; 50; 10] /\
+  smiles_to_dict (dict_to_smiles ex_table) false false = Ok (rev ex_table).
+Proof. vm_compute. split; reflexivity. Qed.
+
+Example ex_fmt4_half_even : fmt4 (1 # 32) = 312 /\ fmt4 (3 # 32) = 938 /\ fmt4 (-(1 # 100000)) = 0 /\ fmt4 (1234567 # 1000000) = 12346.
 Proof. vm_compute. repeat split. Qed.
+
+(* three conformers with formatted energies, write limit 2, read limit 5: two conformers and two energies come back; the
+   in-memory property map is as before *)
+Example ex_write_read :
+  let m := mkmol Z Z 7 [(K_NAME, PStr [109]); (K_CE, PEn [Canon 12346; Canon 25000; Canon (-1)])]
+                 [mkconf Z 0 100; mkconf Z 1 200; mkconf Z 2 300] in
+  exists m' recs r,
+    mol_to_sdf Z Z m (Some 2) = Ok (m', recs) /\ mol_from_sdf Z Z (fun x => x + 1) recs (Some 5) [102] = Ok r /\
+    map (c_xyz Z) (m_confs Z Z r) = [101; 201] /\
+    pget K_CE (m_props Z Z r) = Some (PEn [Canon 12346; Canon 25000]) /\
+    pget K_CE (m_props Z Z m') = pget K_CE (m_props Z Z m) /\ pget K_E (m_props Z Z m') = None.
+Proof. eexists. eexists. eexists. split; [vm_compute; reflexivity|]. split; [vm_compute; reflexivity|]. vm_compute. repeat split. Qed.
